@@ -9,6 +9,7 @@ import os, sys, json, time, shutil, hashlib, re, threading
 from concurrent.futures import ThreadPoolExecutor
 from common import *
 import c15_oracle as orc
+import content as content_dec
 
 FLAGS = ['--test-skip-device', '--test-skip-self', '--no-warnings', '--test-force-order-alpha']
 DAY = 86400
@@ -115,6 +116,21 @@ class Arr:
         for mm in re.finditer(r'^info_time:(\d+):(\d+):(new|scrubbed)$', lt, re.M):
             hist[(int(mm.group(1)), mm.group(3) == 'new')] = int(mm.group(2))
         summ = dict((mm.group(1), mm.group(2)) for mm in re.finditer(r'^summary:(has_\w+):(.*)$', lt, re.M))
+        # the saved words, position by position, from the independent decoder (the tool dumps justsynced only aggregated)
+        try:
+            cp = os.path.join(self.root, 'c1', 'content')
+            dec = content_dec.parse(open(cp, 'rb').read())['info'] if os.path.exists(cp) else None      # (no content before the first sync)
+        except Exception as e:
+            dec = None
+            self.stats['decoder_failures'] = self.stats.get('decoder_failures', 0) + 1
+            self.stats['decoder_failure_kind'] = '%s %s: %s' % (self.name, type(e).__name__, str(e)[:80])
+        if dec is not None:
+            for k, b in enumerate(blocks):
+                v = dec[k] if k < len(dec) else None
+                if (v is not None) != b['used'] or (v is not None and ((v['time'] & ~7) != b['time'] or v['bad'] != b['bad'] or v['rehash'] != b['rehash'])):
+                    raise HarnessError('status block line %d %s disagrees with the saved content %s' % (k, b, v))
+                b['just'] = bool(v['justsynced']) if v is not None else False
+            self.stats['decoded_words'] = self.stats.get('decoded_words', 0) + len(blocks)
         return blocks, hist, summ
 
     def words(self, blocks):
@@ -124,7 +140,8 @@ class Arr:
             if not b['used']:
                 ws.append(0)
             else:
-                ws.append(b['time'] | (1 if b['bad'] else 0) | (2 if b['rehash'] else 0) | (4 if self.just.get(k, 0) else 0))
+                just = b['just'] if 'just' in b else self.just.get(k, 0)       # decoded from the saved content when possible
+                ws.append(b['time'] | (1 if b['bad'] else 0) | (2 if b['rehash'] else 0) | (4 if just else 0))
         return ws
 
     def check_hist(self, ws, hist, where):
@@ -222,16 +239,19 @@ class Arr:
                     self.pending.discard(key)
         ws = self.words(blocks)
         self.check_hist(ws, hist, 'after sync')
+        for k, b in enumerate(blocks):
+            if b['used'] and 'just' in b and b['time'] == t8 and not b['just']:
+                raise HarnessError('after sync: stripe %d written by this sync is not recorded as never scrubbed' % k)
         return ws
 
     def path(self, disk, name):
         return os.path.join(self.root, disk, name)
 
-    def rehash(self):
+    def rehash(self, dt=None):
         """`snapraid rehash`: schedules the migration to the default hash (the array was created with another one);
         every used stripe gets the rehash mark, a verified scrub migrates the stripe and clears it"""
         self.heal()
-        self.tick()
+        self.tick(dt)
         rc, out, lt = self.run(['rehash'])
         self.history.append({'op': 'rehash', 'T': self.T})
         if rc != 0:
@@ -510,6 +530,11 @@ class Arr:
         errpos = set(int(x) for x in re.findall(r'^(?:parity_)?error:(\d+):', lt, re.M))
         ws2 = self.words(blocks2)   # justsynced bits not yet updated: fixed below from the model's prediction
         refreshed = set(k for k, b in enumerate(blocks2) if b['used'] and b['time'] == t8 and blocks[k]['time'] != t8)
+        # stripes that already had this 8-second slot as their time: a refresh shows only in the marks
+        same_slot = set(k for k, b in enumerate(blocks) if b['used'] and b['time'] == t8)
+        for k in same_slot:
+            if k < len(ws2) and ws2[k] != ws[k] and not (ws2[k] & 1 and not ws[k] & 1):
+                refreshed.add(k)
         observed = refreshed | errpos
         msel_set = set(k for k, s in enumerate(msel) if s)
         osel = oinfo['selected'] if not no_oracle else msel_set
@@ -555,6 +580,8 @@ class Arr:
             osel = msel_set           # the plan was cut short by the error limit: the plan oracle does not apply
             # the reader threads run ahead and may already have logged errors for stripes the main loop never booked
             observed = set(q for q in observed if q <= case['bail_at'])
+        # (a verified stripe of the same slot without any mark is written back identical: nothing to observe)
+        observed |= set(k for k in same_slot if k in msel_set and k < len(exp_words) and exp_words[k] == ws[k] and k < len(ws2) and ws2[k] == ws[k])
         if observed != msel_set:
             if osel == observed:
                 self.viol('drift_select', 'MODEL-DRIFT: model selects %s, tool and oracle %s' % (sorted(msel_set), sorted(observed)), case, 'drift')
@@ -948,6 +975,55 @@ def scenario_deleted(a, rounds, viol):
                 break
 
 
+def scenario_flags(a, rounds, viol, rehash=False):
+    """neighbouring stripes that share the stored time and differ only in one mark (never-scrubbed / bad / rehash):
+    the sync and the scrubs run in the same 8-second slot of the steered clock; `--test-force-scrub-even`, tie cuts and
+    silent damage produce every adjacent pair of mark combinations.  After every scrub the words the NEXT command loads
+    (status block lines + the saved content decoded position by position) must be the model's books."""
+    rng = a.rng
+    n = rng.randrange(10, 17)
+    if rehash:
+        a.first_sync_flags = ['--test-force-murmur3']
+    a.add_files([(d, 1) for _ in range(n) for d in a.disks])
+    a.sync()
+    def dmg(k):
+        for q in rng.sample(range(n), k):
+            a.corrupt_data(rng.choice(a.disks), q)
+    # 1. half of the ties scrubbed at the clock of the sync: scrubbed | never scrubbed, same time
+    if rng.random() < 0.5:
+        dmg(rng.randrange(0, 3))
+    a.scrub(rng.choice([50, 30, 70]), 0, dt=0, tag='flags')
+    # 2. every other stripe, some damaged: verified | bad+new | new alternate
+    dmg(rng.randrange(1, 4))
+    a.scrub(None, None, test=('even',), dt=0, tag='flags')
+    a.scrub('bad', None, dt=0, tag='flags')            # still damaged: stay bad
+    a.heal()
+    a.scrub(rng.choice(['bad', 'new']), None, dt=0, tag='flags')
+    a.scrub('new', None, dt=0, tag='flags')            # everything scrubbed now: same time, no mark
+    # 3. differ only in bad
+    dmg(rng.randrange(2, 5))
+    a.scrub(rng.choice(['full', 100]), None if rng.random() < 0.5 else None, dt=0, tag='flags')
+    a.heal()
+    if rehash:
+        # 4. differ only in rehash: every stripe gets the mark, every other one is migrated
+        a.scrub('bad', None, dt=0, tag='flags')
+        a.rehash(dt=0)
+        a.scrub(None, None, test=('even',), dt=0, tag='flags')
+        dmg(2)
+        a.scrub(rng.choice([40, 60]), 0, dt=0, tag='flags')
+        a.heal()
+    for rd in range(rounds):
+        # later slots: new batch synced and partly scrubbed at one clock value again
+        a.add_files([(d, 1) for _ in range(rng.randrange(2, 5)) for d in a.disks])
+        a.tick(DAY)
+        a.sync()
+        a.scrub(rng.randrange(10, 90), 0, dt=0, tag='flags')
+        a.scrub(None, None, test=('even',), dt=0, tag='flags')
+    a.scrub('new', None, dt=DAY, tag='flags')
+    a.scrub('bad', None, dt=8, tag='flags')
+    a.scrub('full', None, dt=8, tag='flags')
+
+
 def scenario_stamps(a, rounds, viol):
     """the stamp grid of "file changed since the last sync": recorded sub-second part 0 or not, new stamp in the same
     second or another one with sub-second part 0 / the recorded one / another one, same size, content changed (or not).
@@ -1333,6 +1409,8 @@ def main(tier, replay=None):
                 scenario_autosave(a, steps, a.viol)
             elif kind == 'stamps':
                 scenario_stamps(a, steps, a.viol)
+            elif kind == 'flags':
+                scenario_flags(a, steps, a.viol, rehash=(idx % 2 == 1))
             else:
                 scenario_ties(a, steps, a.viol)
         except StopScenario:
@@ -1397,6 +1475,8 @@ def main(tier, replay=None):
     for i in range(nwalk):
         t0 = rng.choice([1700000000, 1700000000, 1000000, 4000000000, 1234567])
         specs.append(('walk', i, rng.getrandbits(48), rng.choice([2, 3, 3, 4]), rng.choice([1, 2, 2, 3]), t0 + rng.randrange(0, 8), wsteps))
+    for i in range(4 if tier == 'quick' else 12):
+        specs.append(('flags', i, rng.getrandbits(48), rng.choice([2, 3]), rng.choice([1, 2]), 1700000000 + rng.randrange(0, 8), 1))
     for i in range(2 if tier == 'quick' else 8):
         specs.append(('stamps', i, rng.getrandbits(48), 2, rng.choice([1, 2]), 1700000000 + rng.randrange(0, 8), 2))
     for i in range(2 if tier == 'quick' else 6):
@@ -1497,6 +1577,8 @@ def main(tier, replay=None):
         'scrubs_with_rehash_marks': sum(s['rehash_scrubs'] for s in stats_all),
         'scrubs_with_error_limit': sum(s['limit_scrubs'] for s in stats_all),
         'scrubs_with_autosave': sum(s['autosave_scrubs'] for s in stats_all),
+        'scrubs_in_the_time_slot_of_existing_stripes': sum(1 for c in cases if c.get('tag') == 'flags'),
+        'saved_words_decoded_position_by_position': sum(s.get('decoded_words', 0) for s in stats_all), 'decoder_failures': sum(s.get('decoder_failures', 0) for s in stats_all), 'decoder_failure_kinds': sorted(set(s['decoder_failure_kind'] for s in stats_all if 'decoder_failure_kind' in s))[:6],
         'changed_file_stamp_grid (recorded nsec is 0, same second, new nsec)': sorted(set(x for s in stats_all for x in s['stamp_grid'])),
         'plans_run': plans, 'stripe_outcomes_on_binary': outc,
         'tie_cut_cases': sum(1 for c in cases if c['tie_cut']),
